@@ -89,12 +89,21 @@ func (p *DataTypeFormat) GetColumnName() string {
 
 // updateFieldEncodedType change the field type according to provided DataType
 func updateFieldEncodedType(field *ColumnDescription, schemaStore config.TableSchemaStore) {
-	tableSchema := schemaStore.GetTableSchema(string(field.Table))
+	// the settings are configured for physical tables and columns: `table` and `name` hold the aliases of the
+	// query (SELECT a AS x FROM t AS q), `org_table` and `org_name` what they stand for
+	tableName, columnName := field.OrgTable, field.OrgName
+	if len(tableName) == 0 {
+		tableName = field.Table
+	}
+	if len(columnName) == 0 {
+		columnName = field.Name
+	}
+	tableSchema := schemaStore.GetTableSchema(string(tableName))
 	if tableSchema == nil {
 		return
 	}
 
-	if setting := tableSchema.GetColumnEncryptionSettings(string(field.Name)); setting != nil {
+	if setting := tableSchema.GetColumnEncryptionSettings(string(columnName)); setting != nil {
 		newFieldType, ok := mapEncryptedTypeToField(setting.GetDBDataTypeID())
 		if ok {
 			fieldConfig, fieldConfigExist := TypeConfigurations[base_mysql.Type(newFieldType)]
